@@ -26,6 +26,12 @@ SCENARIOS = [
     # request task cancelled by the web server) while a disconnect handler
     # is suspended; the client is on two namespaces
     ('two-ns-loss-cancelled', True, [], ['loss', 'cancel-loss']),
+    # the application emits to the client with a callback while its
+    # transport is being lost
+    ('emitcb-vs-loss', True, [], ['emitcb', 'loss']),
+    # a binary event is half received when the transport is lost
+    ('binary-header-vs-loss', True,
+     ['51-["ev",{"_placeholder":true,"num":0}]'], ['loss']),
 ]
 OUTCOMES = ['accept', 'false']
 INDEPENDENT = {'manager.pending_disconnect', 'manager.callbacks',
@@ -85,6 +91,10 @@ def scenario_for(sc, always_connect, outcome, suspend_sends,
                 await loop.point('send')
             sock.send = send
         loop.setup = False
+        if name == 'emitcb-vs-loss':
+            # the emit and the loss may become runnable in the same
+            # selector round
+            loop.multi_budget = 1
         lost = {'v': False, 'connect_while_closing': False}
 
         async def receive(f):
@@ -108,7 +118,10 @@ def scenario_for(sc, always_connect, outcome, suspend_sends,
         async def actor(kind):
             await loop.point('start:' + kind)
             try:
-                if kind == 'cancel-loss':
+                if kind == 'emitcb':
+                    await sio.emit('q', 3, to=sid0,
+                                   callback=lambda *a: None)
+                elif kind == 'cancel-loss':
                     tasks['loss'].cancel()
                 elif kind == 'loss':
                     lost['v'] = True
